@@ -882,12 +882,20 @@ fn type_choice_to_variant(
         rename: None,
       })
     }
-    Type2::TextValue { value, .. } => Ok(RustEnumVariant {
-      name: to_pascal_case(value),
-      inner_type: None,
-      doc,
-      rename: Some(value.to_string()),
-    }),
+    Type2::TextValue { value, .. } => {
+      // A literal such as "2fast" would otherwise become the variant `2fast`,
+      // which is not an identifier.
+      let mut name = to_pascal_case(value);
+      if name.starts_with(|c: char| c.is_ascii_digit()) {
+        name.insert(0, '_');
+      }
+      Ok(RustEnumVariant {
+        name,
+        inner_type: None,
+        doc,
+        rename: Some(value.to_string()),
+      })
+    }
     Type2::IntValue { value, .. } => {
       let variant_name = if *value < 0 {
         format!("Neg{}", value.unsigned_abs())
